@@ -2500,7 +2500,7 @@ def vm_crosscheck(ctx, sample):
     import re
     from common import coq_eval
     body = [XC_PRELUDE] + [f"Eval vm_compute in {coq_request(req)}." for req, _ in sample]
-    out = coq_eval(ctx["verif"], "C01", "crosscheck", "\n".join(body) + "\n", timeout=120)
+    out = coq_eval(ctx["verif"], "C01", "crosscheck", "\n".join(body) + "\n", timeout=600)
     blocks = out.split("= ")[1:]
     bad = []
     if len(blocks) != len(sample):
